@@ -483,7 +483,7 @@ var osFuncs = map[string]string{
 	"WriteFile": "WriteFile", "Exit": "Exit", "Stat": "Stat", "File": "File",
 	"CreateTemp": "CreateTemp", "Rename": "Rename", "Remove": "Remove", "TempDir": "TempDir",
 	"Getpid": "Getpid", "Getppid": "Getppid", "Hostname": "Hostname",
-	"SameFile": "SameFile",
+	"SameFile": "SameFile", "ReadDir": "ReadDir", "Lstat": "Stat",
 	"UserCacheDir": "UserCacheDir", "UserConfigDir": "UserConfigDir", "UserHomeDir": "UserHomeDir", "Getwd": "Getwd",
 	"MkdirAll": "MkdirAll", "Mkdir": "Mkdir",
 }
